@@ -995,6 +995,10 @@ func timeoutHandler(c *core.Ctx) {
 	reassign := 0
 	ast.Inspect(fd.Body, func(n ast.Node) bool {
 		if as, ok := n.(*ast.AssignStmt); ok && as.Tok == token.ASSIGN {
+			// the statement that receives SetTimeout's results is the assignment, not a re-assignment
+			if len(as.Rhs) == 1 && astx.Unparen(as.Rhs[0]) == ast.Expr(setTimeout) {
+				return true
+			}
 			for _, l := range as.Lhs {
 				if astx.ObjOf(info, l) == ctxObj {
 					reassign++
